@@ -40,6 +40,20 @@ func (x *Exec) doCallVals(st *State, fr *Frame, c *ssa.CallCommon, fv Val, argv 
 		st.called = map[string]bool{}
 	}
 	st.called[calleeName(c)] = true
+	if st.ncalls == nil {
+		st.ncalls = map[string]int{}
+	}
+	st.ncalls[calleeName(c)]++
+	{
+		cn, k0 := calleeName(c), k
+		k = func(st *State, r Val) {
+			if st.lastRet == nil {
+				st.lastRet = map[string]Val{}
+			}
+			st.lastRet[cn] = r
+			k0(st, r)
+		}
+	}
 	if x.fc != nil && x.fc.AtCalls != nil {
 		name := calleeName(c)
 		for i, ac := range x.fc.AtCalls[name] {
@@ -53,7 +67,7 @@ func (x *Exec) doCallVals(st *State, fr *Frame, c *ssa.CallCommon, fv Val, argv 
 			if c.IsInvoke() {
 				vars["$recv"] = fv
 			}
-			env := &specEnv{w: x.w, pkg: x.fc.Pkg, vars: vars, st: st, heap: st.heap, old: x.initHeap}
+			env := &specEnv{w: x.w, pkg: x.fc.Pkg, vars: vars, st: st, heap: st.heap, old: x.oldOf(st)}
 			g, err := env.evalBool(ac.E)
 			if err != nil {
 				x.reject("contract of %s: atcall %s %q: %v", x.fc.Key, name, ac.Src, err)
@@ -561,8 +575,20 @@ func (x *Exec) doGo(st *State, fr *Frame, in *ssa.Go) {
 			}
 			if c.IsInvoke() {
 				vars["$recv"] = x.val(st, fr, c.Value)
+			} else if fv := x.val(st, fr, c.Value); fv.Clo != nil && callee != nil {
+				// go func() {...}(): the variables the closure captured are visible as $cap_<name> (their contents now)
+				for i, f := range callee.FreeVars {
+					if i >= len(fv.Clo.Binds) {
+						break
+					}
+					if pt, ok := f.Type().Underlying().(*types.Pointer); ok && sortOf(pt.Elem()) != "" {
+						vars["$cap_"+f.Name()] = st.load(st.addrOfPtr(fv.Clo.Binds[i]), pt.Elem())
+					} else {
+						vars["$cap_"+f.Name()] = fv.Clo.Binds[i]
+					}
+				}
 			}
-			env := &specEnv{w: x.w, pkg: x.fc.Pkg, vars: vars, st: st, heap: st.heap, old: x.initHeap}
+			env := &specEnv{w: x.w, pkg: x.fc.Pkg, vars: vars, st: st, heap: st.heap, old: x.oldOf(st)}
 			g, err := env.evalBool(ac.E)
 			if err != nil {
 				x.reject("contract of %s: atcall %s %q: %v", x.fc.Key, cn, ac.Src, err)
